@@ -82,9 +82,11 @@ var c27Types = []string{
 // which itself rounds both coordinate offsets (again <= 0.7072 px from the true crossing); the
 // C4Person head is intersected as an exact circle but drawn as four cubics with integer
 // control points (a further ~0.3 px); the flattened reference outline is within 0.01 px.
-// Measured (evidence: trace_dist_hist / trace_dist_tail_by_type): 99.9% of the asserted distances
-// are < 0.72 px, the largest are 1.0 px, while a genuine miss (the border point comes back) is
-// as far from the outline as the shape is from its box.
+// Measured (evidence: trace_dist_hist / trace_dist_tail_by_type, ~87k found points per quick
+// run): 99.95% of the found points are < 0.72 px from the outline, the largest 1.05 px
+// (C4Person head; cloud and cylinder arcs 0.85-1.0); when nothing is found the border point
+// comes back and its distance is whatever the gap between box and outline is
+// (trace_miss_dist_hist, mostly > 5 px).
 const c27TraceTol = 1.5
 const c27FlatTol = 0.01
 
@@ -92,6 +94,7 @@ var (
 	c27TraceHist = map[string]int64{}
 	c27FitHist   = map[string]int64{}
 	c27TraceTail = map[string]int64{}
+	c27MissHist  = map[string]int64{}
 )
 
 func bucket(v, step float64, max float64) string {
@@ -414,19 +417,25 @@ func checkTrace(h *hx.H, c c27Case) {
 			h.Failf("trace-invalid-point:"+c.Type, "TraceToShapeBorder returned %v", res)
 		}
 		dist := geom.DistTo(geom.Pt{X: res.X, Y: res.Y}, outline)
-		c27TraceHist[bucket(dist, 0.05, 2)]++
-		if dist > 0.72 {
-			c27TraceTail[c.Type+":"+bucket(dist, 0.05, 2)]++
-			h.Extra("trace_dist_tail_by_type", c27TraceTail)
+		// "back": nothing was found, the (rounded) border point itself came back
+		back := res.X == math.Round(float64(float32(r.X))) && res.Y == math.Round(float64(float32(r.Y)))
+		if back && depth >= 1 {
+			c27MissHist[bucket(dist, 0.25, 5)]++
+			h.Extra("trace_miss_dist_hist", c27MissHist)
+		} else {
+			c27TraceHist[bucket(dist, 0.05, 2)]++
+			h.Extra("trace_dist_hist", c27TraceHist)
+			if dist > 0.72 {
+				c27TraceTail[c.Type+":"+bucket(dist, 0.05, 2)]++
+				h.Extra("trace_dist_tail_by_type", c27TraceTail)
+			}
 		}
-		h.Extra("trace_dist_hist", c27TraceHist)
 		if dist > c27TraceTol {
 			// classification: nothing found (the rounded border point comes back) or a wrong point
 			scale := c.BW
 			if p.X == r.X {
 				scale = c.BH
 			}
-			back := res.X == math.Round(float64(float32(r.X))) && res.Y == math.Round(float64(float32(r.Y)))
 			sig := "trace-off-outline:" + c.Type
 			if back && depth > scale {
 				// the outline is met deeper behind the border point than the probe segment reaches
@@ -444,9 +453,13 @@ func checkTrace(h *hx.H, c c27Case) {
 			h.FailSoft(sig, "%s box (%v,%v) %vx%v: border point (%v,%v), previous point (%v,%v): traced to (%v,%v), %.3f px from the outline; the ray first meets the outline at (%.3f,%.3f), %.3f px behind the border point",
 				c.Type, c.BX, c.BY, c.BW, c.BH, r.X, r.Y, p.X, p.Y, res.X, res.Y, dist, first.X, first.Y, depth)
 		} else if geom.Dist(geom.Pt{X: res.X, Y: res.Y}, first) <= c27TraceTol+0.75 {
+			// (not asserted: the statement only asks for a point on the outline. The few "other"
+			// cases on the unchanged tree are rays through a vertex of the outline, the C4Person head
+			// that is intersected as a slightly larger circle than drawn, and misses whose border
+			// point happens to lie within the tolerance of the outline.)
 			h.Label("hit:first-crossing")
 		} else {
-			h.Label("hit:other-crossing")
+			h.Label("hit:other-crossing", "hit:other-crossing:"+c.Type)
 		}
 		if depth > c.BW {
 			h.Label("depth>width")
@@ -489,14 +502,19 @@ func checkTrace(h *hx.H, c c27Case) {
 // ------------------------------------------------------------------ cases
 
 var c27Sizes = []float64{0.5, 1, 2, 3, 7.5, 10, 16, 33, 45, 61, 89.5, 100, 102, 200, 255.5, 500, 777, 1500, 2999.5, 3000}
+var c27SizesQuick = []float64{0.5, 1, 3, 7.5, 16, 33, 45, 61, 100, 102, 200, 255.5, 500, 1500, 3000}
 
 func coreC27() []c27Case {
 	var out []c27Case
 	for _, t := range c27Types {
 		dpx, dpy := shape.NewShape(t, geo.NewBox(geo.NewPoint(0, 0), 10, 10)).GetDefaultPadding()
 		pads := [][2]float64{{0, 0}, {dpx, dpy}, {200, 200}, {0, 200}, {200, 0}, {7.5, 13}}
-		for _, w := range c27Sizes {
-			for _, hh := range c27Sizes {
+		sizes := c27Sizes
+		if !hx.Thorough() {
+			sizes = c27SizesQuick
+		}
+		for _, w := range sizes {
+			for _, hh := range sizes {
 				for _, p := range pads {
 					out = append(out, c27Case{Kind: "fit", Type: t, W: w, H: hh, PX: p[0], PY: p[1]})
 				}
@@ -512,7 +530,10 @@ func coreC27() []c27Case {
 			if rect && bi > 1 {
 				continue
 			}
-			for _, a := range aims {
+			for ai, a := range aims {
+				if !hx.Thorough() && ai >= 4 {
+					continue
+				}
 				for _, dist := range []float64{3, 250} {
 					for k := 0; k < 24; k++ {
 						out = append(out, c27Case{Kind: "trace", Type: t, BX: b[0], BY: b[1], BW: b[2], BH: b[3], U: a[0], V: a[1],
